@@ -89,18 +89,112 @@ def solve_one(job):
     return out
 
 
+def _worker(conn):
+    """Long-lived solver worker: receives jobs, answers results, exits on None."""
+    while True:
+        try:
+            job = conn.recv()
+        except (EOFError, OSError):
+            return
+        if job is None:
+            return
+        try:
+            res = solve_one(job)
+        except BaseException as e:  # noqa
+            res = _dead(job[0], f"solver process raised {type(e).__name__}: {e}")
+        try:
+            conn.send(res)
+        except Exception:
+            return
+
+
+class _Slot:
+    def __init__(self, ctx):
+        self.ctx = ctx
+        self.spawn()
+
+    def spawn(self):
+        self.conn, child = self.ctx.Pipe(duplex=True)
+        self.proc = self.ctx.Process(target=_worker, args=(child,), daemon=True)
+        self.proc.start()
+        child.close()
+        self.job = None
+        self.t0 = 0.0
+
+    def kill(self):
+        try:
+            self.proc.kill()
+            self.proc.join(1)
+            self.conn.close()
+        except Exception:
+            pass
+
+
 def solve_all(vcs, procs=None, extra_hyps=()):
-    """Solve every VC; returns list of result dicts aligned with ``vcs``."""
+    """Solve every VC in a pool of worker processes, each job under a HARD wall-clock limit (z3 does not always
+    honour its own timeout): a worker that overruns is killed and replaced.  A VC whose solver is killed or dies is
+    ``unknown`` - never proved, never refuted."""
     jobs = [(i, to_smt2(vc, extra_hyps), vc.kind == "canary") for i, vc in enumerate(vcs)]
-    procs = procs or min(16, max(1, len(jobs)))
-    if procs == 1 or len(jobs) <= 2:
-        res = [solve_one(j) for j in jobs]
-    else:
-        ctx = mp.get_context("fork")
-        with ctx.Pool(procs) as pool:
-            res = pool.map(solve_one, jobs, chunksize=1)
-    res.sort(key=lambda r: r["idx"])
-    return res
+    if len(jobs) <= 1:
+        return [solve_one(j) for j in jobs]
+    procs = min(procs or 16, len(jobs))
+    ctx = mp.get_context("fork")
+    hard = {True: CANARY_TIMEOUT_MS / 1000.0 + 10, False: (Z3_TIMEOUT_MS + CVC5_TIMEOUT_MS) / 1000.0 + 20}
+    slots = [_Slot(ctx) for _ in range(procs)]
+    pending = list(reversed(jobs))
+    done = {}
+    try:
+        while len(done) < len(jobs):
+            progressed = False
+            for sl in slots:
+                if sl.job is None:
+                    if pending:
+                        sl.job = pending.pop()
+                        sl.t0 = time.time()
+                        try:
+                            sl.conn.send(sl.job)
+                        except Exception:
+                            done[sl.job[0]] = _dead(sl.job[0], "could not reach the solver process")
+                            sl.kill()
+                            sl.spawn()
+                        progressed = True
+                    continue
+                idx, is_canary = sl.job[0], sl.job[2]
+                if sl.conn.poll(0):
+                    try:
+                        done[idx] = sl.conn.recv()
+                        sl.job = None
+                    except Exception:
+                        done[idx] = _dead(idx, "solver process died before answering")
+                        sl.kill()
+                        sl.spawn()
+                    progressed = True
+                elif not sl.proc.is_alive():
+                    done[idx] = _dead(idx, f"solver process died (exit code {sl.proc.exitcode})")
+                    sl.kill()
+                    sl.spawn()
+                    progressed = True
+                elif time.time() - sl.t0 > hard[is_canary]:
+                    done[idx] = _dead(idx, f"solver exceeded the hard wall-clock limit of {hard[is_canary]:.0f} s and was killed")
+                    sl.kill()
+                    sl.spawn()
+                    progressed = True
+            if not progressed:
+                time.sleep(0.002)
+    finally:
+        for sl in slots:
+            try:
+                if sl.job is None:
+                    sl.conn.send(None)
+            except Exception:
+                pass
+            sl.kill()
+    return [done[i] for i in range(len(jobs))]
+
+
+def _dead(i, reason):
+    return {"idx": i, "trail": [("pool", "unknown", 0.0)], "verdict": "unknown", "backend": "none", "time": 0.0,
+            "model": None, "reason": reason}
 
 
 def second_solver(vcs, procs=16):
